@@ -167,6 +167,12 @@ func parseFileRule(c *Ctx, a *flAgg) {
 		}
 		found, _ := p.Results[0].boolConst()
 		inits := callEvents(p, isCallTo(stackPkg, "(*Call).init"))
+		// the callers look at the error only when the line was recognised: an
+		// error returned with found == false is dropped and the malformed file
+		// line is then handled as ordinary text
+		if !p.Results[1].isNilConst() && !found {
+			okAll, why = false, "an error is returned together with found == false: the callers drop it"
+		}
 		if !found || !p.Results[1].isNilConst() {
 			if len(inits) != 0 {
 				okAll, why = false, "the call is initialised on a failing path"
